@@ -1317,8 +1317,15 @@ class SyncInterpreter(BaseInterpreter[TContext, TEvent]):
                 if self._actors.get(actor_id) is not child:
                     return
                 child.start()
-                # 🔄 Keep the thread alive while the child runs.
-                while child.status == "running":
+                # 🔄 Keep the thread alive while the child runs - and is still
+                #    ours: a parent that retired the actor between the check
+                #    above and `start()` could only `stop()` a not-yet-started
+                #    (hence unstoppable) interpreter; the `finally` below
+                #    stops it now.
+                while (
+                    child.status == "running"
+                    and self._actors.get(actor_id) is child
+                ):
                     # 🏁 Exit loop if the child reaches a top-level final state.
                     if any(
                         s.is_final and s.parent == child.machine
